@@ -22,6 +22,7 @@ NESTED_VALUES = {"a": 11, "b": 12, "c": 13}
 PARAM_VALUES = {"p": 101, "a": 102, "b": 103}
 DEFAULT_VALUES = {"a": 5001, "b": 5002, "c": 5003}
 CONST_VALUE = 777
+_CONST = {"cur": CONST_VALUE}      # the constant of the current name table (a table may ask for one whose literal form calls builtins)
 FUNC_VALUE = 900
 
 
@@ -45,7 +46,7 @@ def build_recipe(case, S, D, SNm, DNm, nm):
             recipe.append(link(from_param(N(pr["p"])), dst))
         elif pr["t"] == "const":
             # (a value without literal form - it is == the tag - makes the generator register an id of its own: constant_N)
-            recipe.append(link_constant(dst, value=Fraction(CONST_VALUE) if nm.get("_nonliteral") else CONST_VALUE))
+            recipe.append(link_constant(dst, value=Fraction(CONST_VALUE) if nm.get("_nonliteral") else nm.get("_const", CONST_VALUE)))
         elif pr["t"] == "allow":
             recipe.append(allow_unlinked_optional(dst))
         else:
@@ -104,7 +105,7 @@ def term_value(t: dict, case: dict) -> Any:
     if k == "param":
         return PARAM_VALUES[t["n"]]
     if k == "const":
-        return CONST_VALUE
+        return _CONST["cur"]
     if k == "func":
         return FUNC_VALUE
     if k == "default":
@@ -128,6 +129,7 @@ def prog_str(case: dict) -> str:
 def run_case(case: dict, out: dict, names: dict = None) -> None:
     from adaptix import ProviderNotFoundError
     nm = names or {}
+    _CONST["cur"] = nm.get("_const", CONST_VALUE)
 
     def N(x):
         return nm.get(x, x)
@@ -308,6 +310,9 @@ HOSTILE_NAME_TABLES = [
      "convert_it": "_closure_signature"},
     {"_table": 10, "a": "a", "b": "b", "c": "c", "n": "n", "p": "p", "srcmodel": "src", "SrcNested": "SN", "DstNested": "DN", "Src": "__debug__", "Dst": "D",
      "convert_it": "__debug__"},
+    # classes / functions named like the builtins that the LITERAL FORM of a constant calls (frozenset({...}), range(..), bytearray(..))
+    {"_table": 11, "a": "a", "b": "b", "c": "c", "n": "n", "p": "p", "srcmodel": "src", "SrcNested": "slice", "DstNested": "range", "Src": "bytearray",
+     "Dst": "frozenset", "convert_it": "set", "the_func": "frozenset", "_const": frozenset({("tag", 7), range(3)})},
     {"_table": 2, "a": "переменная", "b": "ñ", "c": "δ", "n": "变量", "p": "π", "srcmodel": "источник", "SrcNested": "Ünï", "DstNested": "Ωmega",
      "Src": "Модель", "Dst": "Цель", "convert_it": "преобразовать"},
 ]
